@@ -40,6 +40,20 @@ const METAS: &[PropMeta] = &[
         assumptions: &["reference codec and rotation rule written from the format description", "file-name codec over all u64 is sampled, not exhaustive"],
         min_distinct: 20,
     },
+    PropMeta {
+        id: "C16",
+        level: "exploration",
+        rule: "a Raft-legal history of 0-40 ops brings the store into a reachable state; then a burst of 6-16 public calls (truncate, read, purge, commit, append, save_vote, save_user_data, stat, on_disk_size, dump, dump_data iteration, flush, finally update_state) with arguments drawn from {0,1,2, purged/first/last/committed index -1,+0,+1,+2, 2^32-1, 2^32, 2^63, u64::MAX-1, u64::MAX} in term and index position, including from>to; every call and a full read-back run under catch_unwind in a build with overflow checks and debug assertions on. Non-trivial = case with >=3 adversarial calls; distinct = distinct (config, call list).",
+        assumptions: &["dev profile: overflow-checks and debug-assertions enabled", "a burst stops at the first call on which specification and store disagree about acceptance (that is C01/C06's subject), and after update_state"],
+        min_distinct: 20,
+    },
+    PropMeta {
+        id: "C12",
+        level: "exploration",
+        rule: "generated records of all six kinds (every Option combination of the state record enumerated, integers from {0,1,2^8,2^16,2^32-1,2^32,2^63,u64::MAX,...}, payloads empty..70 kB incl. multi-byte UTF-8 and NUL): encode count = bytes produced, bytes = independent reference encoding, decode(encode(r)) = r consuming exactly n bytes also when followed by garbage; then mutants of each record (per-byte substitutions incl. all 255 values on short records, every truncation, multi-byte edits, inserted/deleted bytes, length prefixes up to 4 GiB-1, random strings): decode under catch_unwind never panics, returns only UnexpectedEof/InvalidData, agrees with the reference decoder, and any Ok re-encodes to exactly the consumed bytes. A case is one decode; distinct = distinct valid records (by encoding) the mutants were derived from.",
+        assumptions: &["harness types (u64 pairs, String); other Types instantiations not exercised", "reference codec written from the format description"],
+        min_distinct: 100,
+    },
 ];
 
 fn meta(prop: &str) -> Option<&'static PropMeta> {
@@ -48,7 +62,8 @@ fn meta(prop: &str) -> Option<&'static PropMeta> {
 
 fn run_shard(ctx: &mut Ctx) {
     match ctx.prop.as_str() {
-        "C01" | "C02" | "C06" | "C11" => props::seq::run_shard(ctx),
+        "C01" | "C02" | "C06" | "C11" | "C16" => props::seq::run_shard(ctx),
+        "C12" => props::codec::run_shard(ctx),
         p => ctx.out.inconclusive.push(format!("no engine for {}", p)),
     }
 }
@@ -177,6 +192,7 @@ fn cmd_replay(args: &[String]) -> i32 {
     let rp = &v["replay"];
     let res = match rp["kind"].as_str().unwrap_or("") {
         "seq" => props::seq::replay(rp),
+        "codec" => props::codec::replay(rp),
         k => {
             eprintln!("unknown replay kind {}", k);
             return 2;
